@@ -14,6 +14,9 @@ fn leaves() -> Vec<Expr> {
     let f = || "f".to_string();
     vec![
         a(Action::Fls(f())),
+        a(Action::FPrint("/dev/stdout".into())),
+        a(Action::FPrintf("/dev/stderr".into(), vec![Fmt::Field(Field::Name), nl()])),
+        a(Action::FPrint("-".into())),
         a(Action::FPrint(f())),
         a(Action::FPrint0(f())),
         a(Action::FPrintf(f(), vec![Fmt::Field(Field::Name), nl()])),
@@ -38,7 +41,7 @@ fn leaves() -> Vec<Expr> {
 
 fn core() -> Vec<Expr> {
     let l = leaves();
-    [5usize, 6, 8, 7, 16, 18].iter().map(|i| l[*i].clone()).collect()
+    [8usize, 9, 11, 10, 19, 21].iter().map(|i| l[*i].clone()).collect()
 }
 
 fn unary(op: u8, e: Expr) -> Expr {
@@ -223,7 +226,7 @@ pub fn run(ctx: &Ctx) -> i32 {
     // deep paths: every (op, side) path of length <= L with each interesting leaf at the bottom
     let plen = ctx.tier.pick(5, 6);
     let steps: Vec<(u8, u8)> = vec![(0, 0), (1, 0), (2, 0), (2, 1), (3, 0), (3, 1), (4, 0), (4, 1)];
-    let interesting = [ls[5].clone(), ls[6].clone(), ls[7].clone(), ls[16].clone()];
+    let interesting = [ls[8].clone(), ls[9].clone(), ls[10].clone(), ls[19].clone(), ls[1].clone()];
     let filler = Expr::Test(Test::True);
     for len in 1..=plen {
         let total = (steps.len() as u64).pow(len as u32) * interesting.len() as u64;
@@ -252,6 +255,17 @@ pub fn run(ctx: &Ctx) -> i32 {
             }
         }
     }
+    // deep: one step kind repeated (and two alternating) above each interesting leaf, to depths
+    // around every power of two up to 1000 — a left-folded command line of n terms nests n-1 deep
+    let depths: Vec<usize> = (13..=70).chain([100, 127, 128, 129, 255, 256, 257, 300, 511, 512, 513, 1000]).collect();
+    let deep_cases: Vec<(usize, usize, usize)> = depths.iter().flat_map(|d| (0..steps.len()).flat_map(move |a| (0..2).map(move |b| (*d, a, b)))).collect();
+    acc = acc.merge(speclib::report::par_items(&deep_cases, |(d, a, b), acc| {
+        let second = if *b == 0 { steps[*a] } else { steps[(*a + 3) % steps.len()] };
+        let path: Vec<(u8, u8)> = (0..*d).map(|k| if k % 2 == 0 { steps[*a] } else { second }).collect();
+        for leaf in &interesting {
+            check(&under_path(leaf, &filler, &path), acc);
+        }
+    }));
     acc.sample(json!({"tree": under_path(&interesting[1], &filler, &[(2, 1), (0, 0), (4, 0)]).show()}));
     finish(
         ctx,
@@ -260,7 +274,7 @@ pub fn run(ctx: &Ctx) -> i32 {
             level: "model_checking",
             exhaustive: true,
             rule: "state = expression tree built through the public types (all five operator variants, option nodes included); action() and complex_frames() compared with independent recursive definitions; unit helpers against the constants of the property text; byte_size against 128-bit arithmetic on a boundary lattice; distinct = distinct (helper result) observations".into(),
-            bound: format!("all trees with <= 3 leaves over 20 leaves (unary wrappers on operands and root for <= 2 leaves), all 4-leaf trees over a 6-leaf core, every operator path of length <= {plen} above 4 leaves, every periodic path (period <= 3) to depth 12"),
+            bound: format!("all trees with <= 3 leaves over 23 leaves (file names include /dev/stdout, /dev/stderr and -) (unary wrappers on operands and root for <= 2 leaves), all 4-leaf trees over a 6-leaf core, every operator path of length <= {plen} above 4 leaves, every periodic path (period <= 3) to depth 12; single-kind and alternating paths of every depth 13..70 and around every power of two up to 1000"),
             assumptions: vec!["a formatted print with an empty element list is outside the alphabet (the rule does not decide it)".into()],
             extra: serde_json::Map::new(),
         },
